@@ -111,6 +111,17 @@ static void jacobian_case(Toks& tk, Out& out, std::size_t ncells, std::size_t ns
   };
   try
   {
+    // the flat ids are a function of the last matrix given: a previous call with another matrix (denser pattern,
+    // other ordering, other block count) must leave no trace
+    {
+      using Other = micm::SparseMatrix<double, micm::SparseMatrixStandardOrderingCompressedSparseColumn>;
+      auto ob = Other::Create(nspec).SetNumberOfBlocks(ncells + 1);
+      for (std::size_t i = 0; i < nspec; ++i)
+        for (std::size_t j = 0; j < nspec; ++j)
+          ob = ob.WithElement(i, j);
+      Other other(ob);
+      ps->SetJacobianFlatIds(other);
+    }
     ps->SetJacobianFlatIds(jac);
   }
   catch (const std::system_error& e)
